@@ -240,8 +240,11 @@ def r3(R, tus, nm, lm):
                 if not dd:
                     continue
                 nchk += 1
-                g = [(estr(e), pol) for e, pol in cfg.guards(n.id)]
-                ok = ("%s[%s]" % (lp, it), False) in g
+                # l[idx] == 0 in any spelling: 'while (l[q])' left, '!(l[q] != 0)', 'l[q] == 0' taken
+                facts = crules.rel_facts(cfg, n.id)
+                want_ = crules.lin(x.a[1])
+                from engine.poly import Poly as _P
+                ok = want_ is not None and crules.fact("==", _P.atom(("load", "%s[%s]" % (lp, repr(want_))))) in facts
                 R.check(ok, "C13.R3", FILE, x.line, lm.name, "read %s guarded by %s[%s] == 0" % (estr(x), lp, it),
                         "a label is copied from a pixel that is not known to be finished (l != 0): its lout value may be "
                         "the previous content of the output buffer")
